@@ -335,12 +335,8 @@ fn classify(tag: &str, want: &Want, inv: &Invocation, sub: &str, ncmds: usize) -
     if !ok {
         return Some(Violation::new(&clause("direction"), format!("{:?}", want), obs()));
     }
-    if sub == "check" && inv.ending == Ending::Return {
-        let lines = String::from_utf8_lossy(&inv.out).lines().filter(|l| !l.starts_with("==> ")).count();
-        if lines != ncmds {
-            return Some(Violation::new(&clause("check-listing"), format!("{} listing lines", ncmds), format!("{} lines: {}", lines, obs())));
-        }
-    }
+    // what the listing looks like is not this property's business (C04/C08, not claimed)
+    let _ = (sub, ncmds);
     None
 }
 
@@ -466,7 +462,8 @@ impl C13 {
             Want::Diagnosed => r.status == Some(1) && diag,
             Want::AnyDefined => true,
         };
-        let listing_ok = !(sub == "check" && r.status == Some(0)) || String::from_utf8_lossy(&r.stdout).lines().filter(|l| !l.starts_with("==> ")).count() == ncmds;
+        let listing_ok = true;
+        let _ = ncmds;
         if !(ok_class && ok_dir && listing_ok) {
             let mut v = Violation::new(
                 &format!("real/{}/file:{}/{}", sub, fclass, if !ok_class { "ending" } else { "direction" }),
